@@ -211,6 +211,12 @@ class Gen:
 
     # ---------------------------------------------------------------- one valid call
     def valid_call(self, only=None):
+        try:
+            return self._valid_call(only)
+        except (AttributeError, IndexError, ValueError):
+            return None      # an operand could not be made (the model rejected it)
+
+    def _valid_call(self, only=None):
         r = self.rng
         f = only or r.choice(
             UNARY + ARITH * 2 + AXIS * 2 +
@@ -368,6 +374,12 @@ class Gen:
 
     # ---------------------------------------------------------------- one invalid call
     def invalid_call(self):
+        try:
+            return self._invalid_call()
+        except (AttributeError, IndexError, ValueError):
+            return None
+
+    def _invalid_call(self):
         """A call that violates one precondition (the model decides whether it really is rejected)."""
         r = self.rng
         kind = r.choice(["axis", "axis", "shape", "shape", "ids", "range", "count", "empty", "reshape", "matrix", "data",
@@ -526,9 +538,26 @@ def invalid_program(rng, ncalls, devs=("naive", "naive2", "eigen")):
             elif c < 0.75:
                 g.invalid_call()
                 made += 1
-            elif c < 0.87:
+            elif c < 0.79:
+                # every function of one variable works on a node of a graph that is not the default graph
+                a = g.pick_var()
+                if a is None:
+                    continue
+                g.emit("graph %d" % (1 - g.graph))
+                f = rng.choice(UNARY + ["dropout", "dropout", "mean", "batch::mean", "batch::normalize", "log_softmax", "softmax", "selu",
+                                        "flatten", "sum", "copy"])
+                args = {"dropout": [a.name] + list(rng.choice([(0, 1), (1, 1), (0.5, 0)])), "mean": [a.name, 0], "log_softmax": [a.name, 0],
+                        "softmax": [a.name, 0], "sum": [a.name, 0], "copy": [a.name, g.dev]}.get(f, [a.name])
+                v = g.let(f, args)
+                if v is not None:
+                    g.emit("force " + v.name)
+                g.emit("graph %d" % g.graph)
+                made += 1
+            elif c < 0.89:
                 # a node of the other graph / a tensor of another device
                 a = g.pick_var()
+                if a is None:
+                    continue
                 if rng.random() < 0.5:
                     g.graph = 1 - g.graph
                     g.emit("graph %d" % g.graph)
@@ -686,7 +715,10 @@ def call_key(line):
         if a.startswith("V:"):
             out.append("V%d" % len([x for x in a[2:].split(",") if x]))
         elif a[:2] in ("S:", "I:", "D:") or a in DEVS or a[:1].isdigit() or a[:1] in "-.":
-            out.append(a if not a.startswith("D:") else "D")
+            if a.isdigit() and int(a) >= 8:
+                out.append(">=8" if int(a) < 2**31 else ">=2^31")
+            else:
+                out.append(a if not a.startswith("D:") else "D")
         else:
             out.append("v")
     return " ".join(out)
@@ -696,9 +728,14 @@ def judge_program(lines, impl):
     """Property violations visible on the implementation alone.  Returns [(index, class, what)]."""
     bad = []
     poisoned = set()     # variables without a Tensor value whose Node evaluation must throw
+    curgraph, vgraph = "0", {}
     for i, (l, o) in enumerate(zip(lines, impl)):
         w = l.split(" ")
         ow = o.split(" ")
+        if w[0] == "graph" and len(w) == 2:
+            curgraph = w[1]
+        if w[0] == "param" and o.startswith("ok"):
+            vgraph[w[1]] = curgraph
         if o.startswith("crash"):
             bad.append((i, "crash", "the call crashes (%s) instead of raising primitiv::Error" % o))
             break
@@ -707,8 +744,13 @@ def judge_program(lines, impl):
         if w[0] == "let":
             args = [t.split(".")[0] for a in w[4:] for t in Gen._vartoks(a)]
             uses_poisoned = any(a in poisoned for a in args)
+            g = vgraph.get(args[0], curgraph) if args else curgraph
+            if o.startswith("ok"):
+                vgraph[w[1]] = g
             if "tensor-ok" in ow:
-                bad.append((i, "node-rejects-tensor-accepts", "the Node API rejects the call, the Tensor API accepts it (%s)" % o))
+                where = "@non-default-graph" if g != curgraph else ""
+                bad.append((i, "node-rejects-tensor-accepts" + where, "the Node API rejects the call%s, the Tensor API accepts it (%s)"
+                            % (" on a node of a graph that is not the default graph" if where else "", o)))
             elif "tensor-shape" in ow:
                 bad.append((i, "static-shape-differs", "Node::shape() differs from the Tensor API's result shape (%s)" % o))
             elif "tensor-err" in ow:
